@@ -111,6 +111,9 @@ use tonic::transport::server::Connected;
 use tonic::transport::{Endpoint, Server, Uri};
 use tonic::{Request, Response, Status};
 
+#[path = "c13_x.rs"]
+mod x;
+
 // ---------------------------------------------------------------- script
 
 #[derive(Clone, Debug, PartialEq)]
@@ -160,6 +163,10 @@ struct Script {
     keepalive: Option<u64>,
     /// `concurrency_limit_per_connection` and `max_concurrent_streams`
     limit: Option<usize>,
+    /// `x<bits>`: further builder knobs expected not to show (see c13_x.rs)
+    extra: u32,
+    /// `z<1|2|3>`: a sibling server built from the same builder value (see c13_x.rs)
+    sibling: u8,
     steps: Vec<Step>,
 }
 
@@ -201,6 +208,8 @@ fn parse(case: &str) -> Option<Script> {
     let timeout = opt('t', 1_000_000).ok()?;
     let keepalive = opt('k', 1_000_000).ok()?;
     let limit = opt('l', 1000).ok()?.map(|v| v as usize);
+    let extra = opt('x', x::X_MAX).ok()?.unwrap_or(0) as u32;
+    let sibling = opt('z', 3).ok()?.unwrap_or(0) as u8;
     let mut steps = Vec::new();
     let (mut nconn, mut ncall) = (0usize, 0usize);
     for s in &t[at..] {
@@ -334,7 +343,7 @@ fn parse(case: &str) -> Option<Script> {
         }
         steps.push(Step { op, yields });
     }
-    Some(Script { graceful, transport, tls, buf, payload, age, timeout, keepalive, limit, steps })
+    Some(Script { graceful, transport, tls, buf, payload, age, timeout, keepalive, limit, extra, sibling, steps })
 }
 
 // ---------------------------------------------------------------- shared observation state
@@ -462,12 +471,23 @@ struct Incoming {
     /// connections (by index) whose hand-over to the accept loop fires the shutdown signal
     triggers: Arc<Mutex<Vec<usize>>>,
     sig: SigTx,
+    /// the stream has yielded `None`; polling it again breaks the `Stream` contract (a stream
+    /// built with `unfold` / `async_stream` panics then): reported as `repoll`
+    ended: bool,
+    repolled: Arc<std::sync::atomic::AtomicBool>,
 }
 
 impl futures_core::Stream for Incoming {
     type Item = Result<SrvIo, std::io::Error>;
     fn poll_next(mut self: Pin<&mut Self>, cx: &mut Context<'_>) -> Poll<Option<Self::Item>> {
+        if self.ended {
+            self.repolled.store(true, std::sync::atomic::Ordering::SeqCst);
+            return Poll::Ready(None);
+        }
         let r = self.rx.poll_recv(cx);
+        if let Poll::Ready(None) = &r {
+            self.ended = true;
+        }
         if let Poll::Ready(Some(Ok(io))) = &r {
             let wired = {
                 let mut t = self.triggers.lock().unwrap();
@@ -1283,33 +1303,6 @@ impl Slot {
     }
 }
 
-fn new_router(sc: &Script, sh: &Sh) -> tonic::transport::server::Router {
-    let mut builder = Server::builder();
-    if sc.tls {
-        let id = tonic::transport::Identity::from_pem(S1GOOD, S1GOOD_KEY);
-        builder = builder.tls_config(tonic::transport::ServerTlsConfig::new().identity(id)).expect("server tls config");
-    }
-    if sc.age {
-        builder = builder.max_connection_age(AGE);
-    }
-    if let Some(d) = sc.timeout {
-        builder = builder.timeout(Duration::from_secs(d));
-    }
-    if let Some(k) = sc.keepalive {
-        if sc.transport == Transport::Tcp {
-            // HTTP/2 keepalive pings travel through the kernel there, and the paused clock leaps
-            // to the ping timeout while the ack is still on its way: TCP keepalive instead
-            builder = builder.tcp_keepalive(Some(Duration::from_secs(k))).tcp_nodelay(true);
-        } else {
-            builder = builder.http2_keepalive_interval(Some(Duration::from_secs(k))).http2_keepalive_timeout(Some(KEEPALIVE_TIMEOUT));
-        }
-    }
-    if let Some(l) = sc.limit {
-        builder = builder.concurrency_limit_per_connection(l).max_concurrent_streams(Some(l as u32));
-    }
-    builder.add_service(GateSvc { sh: sh.clone() })
-}
-
 /// the user's shutdown signal: fires when `sig_rx` gets its message; if the sender just goes
 /// away the signal stays pending for ever
 async fn signal_future(sig_rx: oneshot::Receiver<()>, keep_rx: oneshot::Receiver<()>) {
@@ -1335,6 +1328,11 @@ async fn run(sc: Script) -> String {
     let _keep_tx; // keeps an unfired signal pending for ever
     let mut tcp_addr: Option<std::net::SocketAddr> = None;
     let serve_task;
+    let repolled = Arc::new(std::sync::atomic::AtomicBool::new(false));
+    // `z`: a sibling server built from the same builder value
+    let mut sib_parts = if sc.sibling != 0 { Some(x::sibling_parts(&sc)) } else { None };
+    let mut sib_start: Option<x::SiblingParts> = None;
+    let mut sib_fut: Option<x::ServeFut> = None;
     if !tcp {
         let (itx, inc_rx) = mpsc::unbounded_channel();
         inc_tx = Some(itx);
@@ -1342,17 +1340,13 @@ async fn run(sc: Script) -> String {
         let (ktx, keep_rx) = oneshot::channel::<()>();
         *sig_tx.lock().unwrap() = Some(stx);
         _keep_tx = ktx;
-        let router = new_router(&sc, &sh);
-        let incoming = Incoming { rx: inc_rx, triggers: triggers.clone(), sig: sig_tx.clone() };
+        let incoming = Incoming { rx: inc_rx, triggers: triggers.clone(), sig: sig_tx.clone(), ended: false, repolled: repolled.clone() };
+        let how = x::How::Incoming(incoming, if graceful { Some((sig_rx, keep_rx)) } else { None });
+        let (fut, sfut) = x::serve_futures(&sc, &sh, how, sib_parts.take().map(|(p, h)| { let s = p.sh.clone(); sib_start = Some(p); (s, h) }));
+        sib_fut = sfut;
         let shs = sh.clone();
         serve_task = tokio::spawn(async move {
-            let r = if graceful {
-                router.serve_with_incoming_shutdown(incoming, signal_future(sig_rx, keep_rx)).await
-            } else {
-                drop(sig_rx);
-                drop(keep_rx);
-                router.serve_with_incoming(incoming).await
-            };
+            let r = fut.await;
             record_resolved(&shs, r.is_ok());
         });
     } else {
@@ -1376,16 +1370,16 @@ async fn run(sc: Script) -> String {
             let addr = std::net::SocketAddr::from(([127, 0, 0, 1], port));
             let (stx, sig_rx) = oneshot::channel::<()>();
             let (ktx, keep_rx) = oneshot::channel::<()>();
-            let router = new_router(&sc, &sh);
+            let how = x::How::Tcp(addr, if graceful { Some((sig_rx, keep_rx)) } else { None });
+            // (a sibling is built once, with the first attempt; a retry builds the server under
+            // test alone from a fresh builder)
+            let (fut, sfut) = x::serve_futures(&sc, &sh, how, sib_parts.take().map(|(p, h)| { let s = p.sh.clone(); sib_start = Some(p); (s, h) }));
+            if sfut.is_some() {
+                sib_fut = sfut;
+            }
             let shs = sh.clone();
             let task = tokio::spawn(async move {
-                let r = if graceful {
-                    router.serve_with_shutdown(addr, signal_future(sig_rx, keep_rx)).await
-                } else {
-                    drop(sig_rx);
-                    drop(keep_rx);
-                    router.serve(addr).await
-                };
+                let r = fut.await;
                 record_resolved(&shs, r.is_ok());
             });
             // the bind happens in the serve future's first poll
@@ -1410,6 +1404,10 @@ async fn run(sc: Script) -> String {
         }
     }
     let mut exp = Expect { graceful_mode: graceful, age: sc.age, timeout: sc.timeout, ..Default::default() };
+    let sibling = match (sib_start.take(), sib_fut.take()) {
+        (Some(p), Some(f)) => Some(x::Sibling::start(&sc, p, f).await),
+        _ => None,
+    };
 
     let mut channels: Vec<Slot> = Vec::new();
     // TLS: connection attempts in progress, silent clients (client end, result sender), and the
@@ -1729,6 +1727,11 @@ async fn run(sc: Script) -> String {
     } else {
         settle().await;
     }
+    // the sibling server: still there, still serving?
+    let sib_tok = match sibling {
+        Some(s) => Some(s.finish().await),
+        None => None,
+    };
     // every client goes away
     sh.lock().unwrap().step = nsteps + 1;
     for (_, h) in call_tasks.iter() {
@@ -1788,6 +1791,12 @@ async fn run(sc: Script) -> String {
         } else {
             out.push(format!("k{}:{}:{}:{}:{}:{}", j, c.started as u8, hdr, msgs, fin, idx(done)));
         }
+    }
+    if let Some(t) = sib_tok {
+        out.push(t);
+    }
+    if repolled.load(std::sync::atomic::Ordering::SeqCst) {
+        out.push("repoll".into());
     }
     out.join(" ")
 }
@@ -2127,6 +2136,31 @@ fn corpus() -> Vec<String> {
         "sc:corpus g b1024 p10 a0 k10 C U0:0 W7200 A0 G W61",
         "sc:corpus g b1024 p10 a0 l8 C U0:0 S0:1:0 Q0:1:0 B0:1:1:0 G A0 A1 M2 A2 M3 A3 A1 A3 A1 A3",
         "sc:corpus g b1024 p10 a0 Io C Ir U0:0 G",
+        // audit aC13: a sibling server built from the same builder value (z1: sibling first, z2:
+        // sibling second, z3: sibling built before the builder got the case's settings); the other
+        // builder knobs on the path of a call (x: 1 accept_http1, 2 trace_fn, 4 layer)
+        "sc:corpus g b1024 p10 a0 z1 C U0:0 G A0",
+        "sc:corpus g b1024 p10 a0 z2 C S0:2:0 A0 G A0 A0 A0",
+        "sc:corpus g b1024 p10 a1 t30 z3 C U0:0 T G A0",
+        "sc:corpus g b1024 p10 a0 z1 G",
+        "sc:corpus g b1024 p10 a0 z2 C G",
+        "sc:corpus g b1024 p10 a0 z1 K3:2 U0:0 A0",
+        "sc:corpus g b1024 p10 a1 t30 k10 l8 x7 z1 C S0:2:0 A0 G T A0 A0 A0",
+        "sc:corpus n b1024 p10 a0 z1 C U0:0 E A0",
+        "sc:corpus gs b1024 p10 a0 x7 z1 H C U1:0 G h0 A0",
+        "sc:corpus gs b1024 p10 a0 z3 C U0:0 G A0",
+        "sc:corpus t b0 p10 a0 x7 z2 C U0:0 G A0",
+        "sc:corpus u b0 p10 a0 x3 z1 C U0:0 A0",
+        "sc:corpus g b24 p70000 a0 x5 z1 C U0:0 G A0",
+        "sc:corpus g b1024 p10 a0 x1 C U0:0 G A0",
+        "sc:corpus g b1024 p10 a0 x1 C~0 G",
+        "sc:corpus g b1024 p10 a0 x1 C~1 G U0:0",
+        "sc:corpus g b1024 p10 a0 x2 C U0:0 S0:1:5 Q0:1:0 B0:1:1:0 G A0 A1 M2 A2 M3 A3 A1 A3 A1 A3",
+        "sc:corpus g b1024 p10 a0 t30 x4 C U0:0 S0:1:0 A1 G W31 A0 A1 A1",
+        "sc:corpus g b1024 p10 a0 t30 x6 C Q0:2:0 M0 A0 G W31 M0",
+        "sc:corpus g b32 p70000 a0 x7 C B0:2:1:0 M0~0 M0~0 G A0 A0 A0",
+        "sc:corpus gs b1024 p10 a0 t30 x4 C U0:0 W31 A0 G",
+        "sc:corpus t b0 p10 a0 t45 x4 C U0:0 W61 A0 G",
         "sc:corpus g b1024 p10 a0 C S0:2:0 A0 X0 G",
         "sc:corpus g b32 p70000 a0 C S0:2:0 U0:0 A0 A0 G A1 A0 A0",
         "sc:corpus g b1024 p10 a0 C U0:0~0 G A0",
@@ -2667,6 +2701,14 @@ fn with_config(case: &str, rng: &mut Rng) -> String {
     }
     if rng.chance(1, 4) {
         cfg.push(format!("l{}", rng.pick(&[8usize, 64])));
+    }
+    // further builder knobs that must not show (accept_http1 / trace_fn / layer), any subset
+    if rng.chance(1, 3) {
+        cfg.push(format!("x{}", rng.range(1, x::X_MAX)));
+    }
+    // a sibling server built from the same builder value
+    if rng.chance(1, 6) {
+        cfg.push(format!("z{}", rng.range(1, 3)));
     }
     let mut v: Vec<String> = toks[..5].iter().map(|t| t.to_string()).collect();
     v.extend(cfg);
